@@ -26,6 +26,9 @@ pub fn dump_request(req: &Request) -> Vec<String> {
     let mut out = Vec::new();
     out.push(format!("M {}", req.method.as_str()));
     out.push(format!("P {}", hex(req.path.str().as_bytes())));
+    // every public way to look at the path must be usable on a request that reached a fang: `Deref<Target = str>` /
+    // `AsRef<str>` (what `req.path.starts_with(..)` goes through), `Display`, `Debug`, `params()`
+    let _: usize = (&*req.path).len() + AsRef::<str>::as_ref(&req.path).len() + format!("{} {:?}", req.path, req.path).len() + req.path.params().count();
     for (k, v) in req.query.iter() {
         out.push(format!("Q {} {}", hex(k.as_bytes()), hex(v.as_bytes())));
     }
